@@ -29,7 +29,7 @@ Qed.
 Lemma reduce_fold h (m : vmap) : forall a, fold_left (fun r kv => r + hget h (snd kv)) m a =
   a + fold_left (fun r kv => r + hget h (snd kv)) m 0.
 Proof.
-  induction m as [|kv m IH]; intro a; simpl; [lia|]. rewrite (IH (a + _)), (IH (0 + _)). lia.
+  induction m as [|kv m IH]; intro a; simpl; [lia|]. rewrite (IH (a + _)), (IH (hget h (snd kv))). lia.
 Qed.
 Lemma reduce_vmap h n (m : vmap) :
   NoDup (map fst m) -> (forall k, In k (map fst m) -> 0 <= k < Z.of_nat n) ->
@@ -111,7 +111,7 @@ Proof.
     apply Forall_forall. intros x Hx. rewrite Forall_forall in Hf. apply Hf.
     apply in_app_or in Hx. apply in_or_app. destruct Hx; auto. right. right. auto.
 Qed.
-Lemma iter_from_spec h v i pre rest :
+Lemma iter_from_spec h v pre rest :
   idx v = pre ++ rest -> sset (idx v) ->
   exists v', (match skip (sfuel v) h v (hd_error rest) with
               | Some (v0, cur) => iter_loop (sfuel v) h v0 cur []
@@ -153,7 +153,7 @@ Lemma iter_from_payload h v i : Inv v ->
 Proof.
   intro I. assert (Hs : sset (idx v)) by apply I.
   destruct (split_ge i (idx v) Hs) as (pre & rest & A & B & C & D).
-  destruct (iter_from_spec h v i pre rest A Hs) as (v' & E & _).
+  destruct (iter_from_spec h v pre rest A Hs) as (v' & E & _).
   unfold it_from. rewrite B. exists v', (cells v (filter (nonnull h v) rest)). split; auto.
   rewrite nonzero_abs by auto. rewrite filter_map_comm. cbn [fst].
   rewrite seq_vals_cells by (intros k Hk; apply filter_In in Hk; tauto).
